@@ -18,7 +18,7 @@ ID = 'C11'
 LEVEL = 'model_checking'
 RULE = ('(a) argument purity: every evaluate()/update() call of the workload (4 monitor kinds, formulas with <=2 operators incl. bounded future on traces '
         'shorter than the bound, sub-specifications) is made on deep copies whose content is compared with the originals afterwards; (b) offline '
-        'repeatability: evaluate(d1), evaluate(d2), evaluate(d1) on one object for ALL ordered pairs of traces up to length 3; (c) isolation: ALL '
+        'repeatability: evaluate(d1), evaluate(d2), evaluate(d1) on one object for ALL ordered pairs of traces up to length 3 (in every second pair the caller looks at the object between the evaluations - explain(), spec_print(), get_value(), violation counter - alternately under the default configuration and a sampling period of 500 ms); (c) isolation: ALL '
         'interleavings (merge orders) of the call sequences of two and three specification objects (<=3 calls each) that share formula texts, variable '
         'names and monitor kinds; every object must return exactly what it returns when run alone; (d) determinism: the same workload in sub-processes '
         'with PYTHONHASHSEED in {0..7} (thorough {0..63}) must produce identical result digests. One schedule = one interleaving executed on fresh objects; '
@@ -91,10 +91,18 @@ def run_purity(shard, tier, res, mod):
                 res.evaluations += 1
                 d1 = dict({'time': list(range(len(traces[i][vs[0]])))}, **{v: list(traces[i][v]) for v in vs})
                 d2 = dict({'time': list(range(len(traces[j][vs[0]])))}, **{v: list(traces[j][v]) for v in vs})
-                s2 = impl.build('dt_off', text, vs)
-                msg = repeat_case(s2, d1, d2, scribble=(i + j) % 2 == 0)
+                # every second pair: the caller looks at the object between the evaluations (explain(), get_value(), spec_print(), the violation
+                # counter), alternately under the default configuration and under a sampling period of 500 ms
+                obs = (i * 7 + j) % 2 == 1
+                period = (500, 'ms') if obs and (i + j) % 4 < 2 else None
+                s2 = impl.build('dt_off', text, vs, period=period)
+                msg = repeat_case(s2, d1, d2, scribble=(i + j) % 2 == 0, observers=obs)
                 if msg:
-                    res.violation(mod, {'mode': 'repeat', 'formula': fj, 'spec': text, 'vars': vs, 'd1': d1, 'd2': d2, 'scribble': (i + j) % 2 == 0}, msg)
+                    if obs:
+                        msg += ' (between the evaluations the caller called explain(), spec_print(), get_value() and read the violation counter%s)' % (
+                            '; sampling period 500 ms' if period else '')
+                    res.violation(mod, {'mode': 'repeat', 'formula': fj, 'spec': text, 'vars': vs, 'd1': d1, 'd2': d2, 'scribble': (i + j) % 2 == 0,
+                                        'observers': obs, 'period': list(period) if period else None}, msg)
                     res.outcomes['not repeatable'] += 1
                 else:
                     res.outcomes['repeatable'] += 1
@@ -169,13 +177,28 @@ def scribble_on(x):
         x.append([99.0, 99.0])
 
 
-def repeat_case(spec, d1, d2, scribble, star=False):
+def observe(spec):
+    """what a caller may look at between two evaluations: none of it is an operation on the data"""
+    for fn in ('explain', 'spec_print'):
+        if hasattr(spec, fn):
+            impl.outcome(getattr(spec, fn))
+    impl.outcome(spec.get_value, 'out')
+    impl.outcome(lambda: spec.sampling_violation_counter)
+    if hasattr(spec, 'explainer'):
+        impl.outcome(lambda: dict(spec.explainer.explanations))
+
+
+def repeat_case(spec, d1, d2, scribble, star=False, observers=False):
     """evaluate(d1), evaluate(d2), evaluate(d1) on one object: the third result equals the first; the first result, still held by the caller,
     is not changed by the later calls; and (scribble) whatever the caller does to the returned lists has no influence on later evaluations"""
     ev = (lambda d: impl.outcome(spec.evaluate, *copy.deepcopy(d))) if star else (lambda d: impl.outcome(spec.evaluate, copy.deepcopy(d)))
     r1 = ev(d1)
     s1 = explore.snapshot(r1)
+    if observers:
+        observe(spec)
     r2 = ev(d2)
+    if observers:
+        observe(spec)
     if explore.snapshot(r1) != s1:
         return 'the result of evaluate(d1) that the caller still holds changed from %r to %r during evaluate(d2) on the same object' % (s1, r1[1])
     if scribble and r1[0] == 'ok' and r2[0] == 'ok':
@@ -452,8 +475,8 @@ def replay(case):
         m = repeat_case(s2, case['d1'], case['d2'], case.get('scribble', False), star=True)
         return ['dense ' + m] if m else []
     if mode == 'repeat':
-        s2 = impl.build('dt_off', case['spec'], case['vars'])
-        m = repeat_case(s2, case['d1'], case['d2'], case.get('scribble', False))
+        s2 = impl.build('dt_off', case['spec'], case['vars'], period=tuple(case['period']) if case.get('period') else None)
+        m = repeat_case(s2, case['d1'], case['d2'], case.get('scribble', False), observers=case.get('observers', False))
         return [m] if m else []
     if mode == 'hashseed':
         a, ao = run_workload(0)
